@@ -10,7 +10,7 @@
    Items.  The merges identify an item by sha3 of its "%v" rendering; MinObservation.GetValid returns the valid items
    in ascending order of that id.  An observed commit report / message therefore carries [key] = that id (the harness
    passes its first eight bytes), next to the fields the rest of the code looks at.  [to_obs] projects an observation
-   to the item types of ExecMerge (key, root, interval, executed list / key, sequence number, message id), the merges
+   to the item types of ExecMerge (key, source chain, root, interval, executed list / key, sequence number, message id), the merges
    of ExecMerge run on the projection and the merged items are taken back from the observations (first item with that
    projection: MinObservation keeps the first data it was given for an id).
    Timestamps: only the order matters (getCommitReportsOutcome sorts by Timestamp): [xc_ts].
@@ -34,7 +34,7 @@ Record sobs := mkSO {
 Definition sao := (N * sobs)%type.                 (* (oracle, observation) *)
 
 Definition to_commit (x : xcommit) : EM.commit :=
-  EM.mkCommit (xc_key x) (c_root (xc_cd x)) (c_start (xc_cd x)) (c_end (xc_cd x)) (c_exec (xc_cd x)).
+  EM.mkCommit (xc_key x) (c_src (xc_cd x)) (c_root (xc_cd x)) (c_start (xc_cd x)) (c_end (xc_cd x)) (c_exec (xc_cd x)).
 Definition to_msg (x : xmsg) : EM.msg := EM.mkMsg (xm_key x) (m_seq (xm_msg x)) (m_id (xm_msg x)).
 Definition to_obs (o : sobs) : EM.obs :=
   EM.mkObs (map (fun kl => (fst kl, map to_commit (snd kl))) (so_commits o))
@@ -70,6 +70,9 @@ Definition rich (g : EM.merged) (aos : list sao) : xmerged :=
        (EM.g_tokens g) (EM.g_costly g) (EM.g_nonces g).
 Definition x_consensus (bigF : Z) (dest : N) (fchain : list (N * Z)) (aos : list sao) : res xmerged :=
   rbind (EM.get_consensus bigF dest fchain (to_aos aos)) (fun g => Ok (rich g aos)).
+(* before the repair of F75: commit reports agreed at the f of the chain key they are filed under *)
+Definition x_consensus_unfixed (bigF : Z) (dest : N) (fchain : list (N * Z)) (aos : list sao) : res xmerged :=
+  rbind (EM.get_consensus_unfixed bigF dest fchain (to_aos aos)) (fun g => Ok (rich g aos)).
 
 (* ---------- outcomes ---------- *)
 (* states as in PanicSites: 0 Unknown, 1 Initialized, 2 GetCommitReports, 3 GetMessages, 4 Filter *)
@@ -88,8 +91,25 @@ Definition new_outcome (st : N) (pend : list cdata) (reps : list creport) : outc
 Definition is_empty (o : outcome) : bool :=
   match o_pending o, o_report o with [], [] => true | _, _ => false end.
 
-(* ---- getCommitReportsOutcome: chains ascending, per chain in GetValid order, then stably by timestamp ---- *)
+(* ---- dropConflictingReports (repair of F76): an agreed report is dropped when ANOTHER agreed report of the same source
+   chain has the same root or an overlapping interval.  Every report conflicts with itself, so "another one at a
+   different position" is "two or more conflicting entries in the list". ---- *)
+Definition conflicts (a b : cdata) : bool :=
+  N.eqb (c_src a) (c_src b) &&
+  (N.eqb (c_root a) (c_root b) || (N.leb (c_start a) (c_end b) && N.leb (c_start b) (c_end a))).
+Definition conflict_count (a : xcommit) (l : list xcommit) : nat :=
+  length (filter (fun b => conflicts (xc_cd a) (xc_cd b)) l).
+Definition drop_conflicting (l : list xcommit) : list xcommit :=
+  filter (fun a => Nat.leb (conflict_count a l) 1) l.
+
+(* ---- getCommitReportsOutcome: chains ascending, per chain in GetValid order, conflicting reports dropped, then stably
+   by timestamp ---- *)
 Definition commit_reports_outcome (m : xmerged) : outcome :=
+  let flat := flat_map snd (sort_by (fun a b => N.leb (fst a) (fst b)) (xg_commits m)) in
+  let byts := sort_by (fun a b => N.leb (xc_ts a) (xc_ts b)) (drop_conflicting flat) in
+  new_outcome 2 (map xc_cd byts) [].
+(* before the repair of F76 *)
+Definition commit_reports_outcome_unfixed (m : xmerged) : outcome :=
   let flat := flat_map snd (sort_by (fun a b => N.leb (fst a) (fst b)) (xg_commits m)) in
   let byts := sort_by (fun a b => N.leb (xc_ts a) (xc_ts b)) flat in
   new_outcome 2 (map xc_cd byts) [].
@@ -157,6 +177,16 @@ Section ExecSys.
            else filter_outcome m prev) (fun o =>
     Ok (if is_empty o then mkOut 1 [] [] else o))))).
 
+  (* Plugin.Outcome before the repairs of F75 (threshold of commit reports) and F76 (conflicting reports kept) *)
+  Definition exec_round_unfixed (bigF : Z) (dest : N) (fchain : list (N * Z)) (prev : outcome) (aos : list sao) : res outcome :=
+    rbind (PS.exec_decode_state (o_state prev)) (fun s0 =>
+    rbind (x_consensus_unfixed bigF dest fchain aos) (fun m =>
+    rbind (PS.exec_next s0) (fun st =>
+    rbind (if N.eqb st 2 then Ok (commit_reports_outcome_unfixed m)
+           else if N.eqb st 3 then messages_outcome m prev
+           else filter_outcome m prev) (fun o =>
+    Ok (if is_empty o then mkOut 1 [] [] else o))))).
+
   (* ---- histories: one entry per OCR round = (fChain of the home chain in that round, the attributed observations).
      A round whose Outcome fails commits nothing: the next round sees the same previous outcome. ---- *)
   Definition round_in := (list (N * Z) * list sao)%type.
@@ -164,6 +194,8 @@ Section ExecSys.
     match exec_round bigF dest (fst r) prev (snd r) with Ok o => o | _ => prev end.
   Definition exec_run (bigF : Z) (dest : N) (prev : outcome) (rs : list round_in) : outcome :=
     fold_left (exec_step bigF dest) rs prev.
+  Definition exec_run_unfixed (bigF : Z) (dest : N) (prev : outcome) (rs : list round_in) : outcome :=
+    fold_left (fun o r => match exec_round_unfixed bigF dest (fst r) o (snd r) with Ok o' => o' | _ => o end) rs prev.
   (* what every round answered, and the observable: the reports of the Filter rounds *)
   Fixpoint exec_trace (bigF : Z) (dest : N) (prev : outcome) (rs : list round_in) : list (res outcome) :=
     match rs with
